@@ -638,3 +638,52 @@ def gen_c12(rng, tier):
     for _ in range(n):
         d2 = random_definition(rng)
         yield {"op": "dev", "def": d2, "ops": random_ops(rng, d2, rng.randint(5, 30), hostile_rate=0.7), "oracles": ["C12"]}
+
+
+def gen_c14(rng, tier):
+    """handler configurations x element kinds x write sequences (client message, set_value, assignment)"""
+    n = 900 if tier == "thorough" else 150
+    for _ in range(n):
+        defn = random_definition(rng, handlers=True, ngroups=rng.randint(1, 2))
+        # make sure handlers are plentiful
+        for g in defn["groups"]:
+            for v in g["vectors"]:
+                for e in v["elements"]:
+                    if rng.random() < 0.6:
+                        e["write"] = [{"id": 100 + rng.randrange(900), "async": rng.random() < 0.3, "veto": rng.random() < 0.3} for _ in range(rng.randint(1, 2))]
+                    if rng.random() < 0.6:
+                        e["change"] = [{"id": 1000 + rng.randrange(900), "async": rng.random() < 0.3} for _ in range(rng.randint(1, 2))]
+        ops = []
+        for _k in range(rng.randint(4, 20)):
+            gi = rng.randrange(len(defn["groups"]))
+            g = defn["groups"][gi]
+            vi = rng.randrange(len(g["vectors"]))
+            v = g["vectors"][vi]
+            ei = rng.randrange(len(v["elements"]))
+            r = rng.random()
+            if r < 0.7:
+                val = random_value(rng, v["kind"])
+                if rng.random() < 0.3 and ops and ops[-1][0] in ("a", "s"):
+                    val = ops[-1][4]                      # unchanged value
+                ops.append([rng.choice(["a", "s", "s"]), gi, vi, ei, val])
+            elif r < 0.8:
+                ops.append(["ev", gi, vi, rng.random() < 0.5])
+            else:
+                ops.append(["c", client_write(rng, defn, False)])
+        yield {"op": "dev", "def": defn, "ops": ops, "oracles": ["C14"]}
+
+
+def gen_c07(rng, tier):
+    """generated definitions x reachable states x every (device, name) request: existing, disabled, unknown, absent"""
+    n = 700 if tier == "thorough" else 120
+    for _ in range(n):
+        defn = random_definition(rng, handlers=rng.random() < 0.3)
+        names = [v["name"] for g in defn["groups"] for v in g["vectors"]]
+        ops = random_ops(rng, defn, rng.randint(0, 12), hostile_rate=0.2)
+        for name in names + [None, "", "UNKNOWN"]:
+            r = comp_codec.msg_recipe("getProperties", ())
+            r["kw"]["device"], r["kw"]["name"] = rng.choice([defn["name"], None]), name
+            ops.append(["c", r])
+            if rng.random() < 0.3:
+                ops.extend(random_ops(rng, defn, 2, hostile_rate=0.0))
+        yield {"op": "dev", "def": defn, "ops": ops, "oracles": ["C07"]}
